@@ -27,6 +27,15 @@ def body(ck):
     ck.build_coq(); ck.compile_props()
     quick = ck.tier == "quick"
     rng = ck.rng
+    # goal-directed reachability search (model-predictive shooting towards every finite observation bound), started now in a float32
+    # subprocess and collected at the end
+    import os
+    import subprocess
+    import sys
+    from harness.common import VERIF
+    env_ = dict(os.environ); env_.pop("JAX_ENABLE_X64", None)
+    reach = subprocess.Popen([sys.executable, "-m", "harness.sub_c02_reach", "--seed", str(ck.seed)] + ([] if quick else ["--replans", "120", "--candidates", "256", "--max-targets", "16"]),
+                             cwd=str(VERIF), env=env_, stdout=subprocess.PIPE, stderr=subprocess.DEVNULL, text=True)
     cases, cj = [], []
     n = 150 if quick else 1500
 
@@ -69,6 +78,31 @@ def body(ck):
     ck.classify(res, cj, sig_of=lambda i: "C02/clip/" + cj[i]["env"].split("(")[0], relation="EnvBounds clip model vs env.clip/env.observation",
                 what="clip()/observation() leaves the declared observation Box")
     report(ck, quick, "c02", "a built-in environment left its declared spaces / emitted an ill-typed signal")
+    # ---- collect the reachability search
+    import json as _json
+    import re as _re
+    from harness.common import Violation
+    out, _ = reach.communicate(timeout=3000)
+    m = _re.search(r"^RESULT (.*)$", out or "", _re.M)
+    if not m:
+        ck.violations.append(Violation("correspondence-broken", "C02/reach/harness", "the reachability search produced no result", extra={"log": (out or "")[-1500:]}))
+    else:
+        rr = _json.loads(m.group(1))
+        summary = {}
+        for name, r in rr["envs"].items():
+            summary[name] = {"finite_bounds": r["finite_bounds"], "steps": r["steps"], "skipped": r.get("skipped"),
+                             "closest_margins": [t["closest_margin"] for t in r["targets"]]}
+            ck.count("reach_search_steps", r["steps"]); ck.evaluations += r["steps"]
+            if r["steps"]:
+                ck.case_seen(("reach", name))
+            if r["error"]:
+                ck.violations.append(Violation("impl-violates-property", f"C02/reach/{name}/exception", f"{name} raised during the reachability search: {r['error']}",
+                                               case={"env": name}, extra={"traceback": r.get("traceback")}))
+            for v in r["violations"]:
+                ck.violations.append(Violation("impl-violates-property", f"C02/reach/{name}",
+                                               f"{name}: a state reached from a reset by in-space actions has an observation outside the declared observation space "
+                                               f"(component {v['component']}, declared {v['direction']} bound {v['declared_bound']})", case={**v, "search": rr["params"]}))
+        ck.extra_cov["reachability_search"] = {"method": "model-predictive shooting towards each finite observation bound (a search, not a proof)", "params": rr["params"], "per_env": summary}
 
 
 if __name__ == "__main__":
